@@ -907,6 +907,10 @@ impl<T: Transport, Env: UtpEnvironment> VirtualSocket<T, Env> {
             trace!("just_before_death: no error");
         }
 
+        // We can't flush the in-order part of the reassembly queue after we die. It was already ACKed
+        // to the remote, so the reader must still get it (followed by EOF or the error).
+        self.user_rx.flush_before_death();
+
         if let Some(e) = error {
             self.user_rx.enqueue_error(format!("{e:#}"));
         }
